@@ -35,6 +35,8 @@ def check(ctx):
     ctx.rule("R04.3", "the link variable is exp(-i A.(r_e1 - r_e0)) in builder and refresh alike", 4)
     ctx.rule("R04.4", "a constant shift of mu multiplies psi' by a global phase and leaves |psi'|^2 unchanged", 2)
     ctx.rule("R04.5", "covariant operators are written only by MeshOperators.__init__/set_link_exponents; the solver passes A_applied (+A_induced)", 3)
+    ctx.rule("R04.6", "the operators acting on psi always carry complex link variables: no caller builds them without "
+                      "link variables (a gauge-equivalent non-zero potential would take the complex path)", 3)
     f_set = repo.func(OPS, "MeshOperators.set_link_exponents")
     f_sc = repo.func(OPS, "MeshOperators.get_supercurrent")
     for fix_psi in (False, True):
@@ -132,6 +134,8 @@ def check(ctx):
            where=fu.fq, construct="set_link_exponents arguments", loc=loc(fu, fu.node),
            message=f"set_link_exponents is called with {args}",
            consequence="the operators are built for a different vector potential than the one recorded")
+    from .c10 import link_callers
+    link_callers(ctx, "R04.6")
     fo = repo.func(SOLVER, "TDGLSolver.solve_for_observables")
     src = ast.unparse(fo.node)
     uses = [norm(n) for n in own_nodes(fo.node) if isinstance(n, ast.BinOp) and any(
